@@ -558,4 +558,23 @@ theorem eq_zero_of_toM {m n : Nat} (A : Mat K m n) (h : A.toM = 0) : A = Mat.zer
   apply Mat.toM_injective; rw [h, Mat.toM_zero]
 end matlevel
 
+
+section examples
+/-- the basis `{(1)}` of the one-dimensional system -/
+def basis1 : Basis ℂ 1 := Vec.ofFn fun _ => Mat.one
+
+theorem Bm_basis1 (a : Fin (1 * 1)) : Bm basis1 a = 1 := by
+  simp [Bm, basis1, Vec.get_ofFn]
+
+theorem onh0_basis1 : ONH0 basis1 ⟨0, by decide⟩ (1 : ℂ) where
+  herm a := by simp [Bm_basis1]
+  orth a b := by
+    have : a = b := by apply Fin.ext; have := a.isLt; have := b.isLt; omega
+    simp [Bm_basis1, this]
+  b0 := by simp [Bm_basis1]
+  z0 := rfl
+  snorm := by simp
+
+end examples
+
 end QM.C18
